@@ -44,6 +44,8 @@ T14 == [kfs |-> <<Kf(0, <<8>>, <<5>>, 0), Kf(4, <<80>>, N_, 0)>>, de |-> 1, tm |
 \* an endless part merged with a one-shot part of the SAME cycle length that starts later (the aggregate reports a
 \* cycle duration and an infinite repeat, yet the one-shot part is not periodic)
 T15 == [kfs |-> <<Kf(4, <<24>>, N_, 3)>>, de |-> 1, tm |-> Tm(4, 0, -2, FALSE)]
+\* four keyframes ADDED out of order (25%, 50%, 0%, 100%): the lookup tables must follow the sorted order
+T16 == [kfs |-> <<Kf(1, <<10>>, N_, 0), Kf(2, <<20>>, <<6>>, 0), Kf(0, <<-10>>, N_, 0), Kf(4, <<40>>, <<2>>, 0)>>, de |-> 1, tm |-> Tm(4, 0, -1, FALSE)]
 Pool == <<
   [tls |-> <<<<T1>>, <<T2>>, <<>>, <<>>>>,          s0 |-> 1, v0 |-> <<5, 7>>],
   [tls |-> <<<<T3>>, <<T5, T4>>, <<>>, <<T1>>>>,    s0 |-> 1, v0 |-> <<5, 7>>],
@@ -53,7 +55,7 @@ Pool == <<
   [tls |-> <<<<T8>>, <<>>, <<T7, T8>>, <<T2>>>>,    s0 |-> 1, v0 |-> <<3, 1>>],
   [tls |-> <<<<T9>>, <<T1, T10>>, <<>>, <<T4>>>>,   s0 |-> 1, v0 |-> <<-90, 4>>],
   [tls |-> <<<<T11>>, <<T1, T11>>, <<T12>>, <<T7>>>>, s0 |-> 1, v0 |-> <<6, 2>>],
-  [tls |-> <<<<T13>>, <<T14>>, <<T15, T10>>, <<>>>>,  s0 |-> 2, v0 |-> <<30, 9>>] >>
+  [tls |-> <<<<T13>>, <<T14>>, <<T15, T10>>, <<T16>>>>, s0 |-> 2, v0 |-> <<30, 9>>] >>
 Cfg == Pool[K]
 
 VARIABLES cur, ticks, paused, ov, vals, tls, hist, obs, rng
